@@ -1,7 +1,7 @@
 (* C08 — decoders are total: no panic, no hang, bounded memory. What is
    proved concerns the logic of the models (DESIGN.md: the Go allocator, GC
    and wall time are measured by the harness, not proved). *)
-From V Require Import Base.Prelude Base.Prog Flate.Spec Flate.Safe Brotli.Spec Brotli.Safe XFlate.Index XFlate.Reader XFlate.Thms Life.ReadLoop.
+From V Require Import Base.Prelude Base.Prog Flate.Spec Flate.Safe Brotli.Spec Brotli.Safe XFlate.Index XFlate.Reader XFlate.Thms Life.ReadLoop Flate.Safe Flate.Fuel.
 
 (* the index record loop appends at most |payload|/2 records, whatever
    record count the index declares (repair D3) *)
@@ -55,3 +55,16 @@ Theorem brotli_decoder_error_classes : forall dict input,
   end.
 Proof. exact brotli_only_expected_errors. Qed.
 Print Assumptions brotli_decoder_error_classes.
+
+(* TOTALITY of the RFC 1951 decoder model: on EVERY input the decoder, with the loop budget
+   [inflate] itself chooses, ends in success, UnexpectedEOF or Corrupted - never in a panic
+   (window copy out of range), never with its loop budget exhausted (every continuing loop
+   iteration consumes an input bit; complete codes have no zero length, so no decoding tree
+   is a bare leaf), never with Invalid/Internal. *)
+Theorem flate_decoder_terminates_without_panic : forall input,
+  match ir_err (inflate input) with
+  | None => True
+  | Some e => e = EUEOF \/ e = ECorrupted
+  end.
+Proof. exact inflate_total. Qed.
+Print Assumptions flate_decoder_terminates_without_panic.
